@@ -437,6 +437,71 @@ package common
 //@     invariant len(out) == act_count(indicesBounded, epoch, rangeindex + 1) && len(out) <= rangeindex + 1
 //@     invariant forall i :: {indicesBounded[i]} 0 <= i && i <= rangeindex && is_active(indicesBounded[i], epoch) ==> act_count(indicesBounded, epoch, i) < len(out) && out[act_count(indicesBounded, epoch, i)] == indicesBounded[i].Index
 
+// ---------------------------------------------------------------- epochs context: what each (re)load reads from the state (C08)
+// LoadBoundedIndices: entry i is (i, activation epoch, exit epoch) of validator i, for the whole registry.
+//@ func LoadBoundedIndices(validators) (out, err)
+//@   property C08
+//@   use reg_len_nonneg
+//@   requires validators != nil
+//@   assigns ghost(n_viter), ghost(viter_pos), ghost(viter_reg)
+//@   ensures err == nil ==> !reg_len_err(validators) && len(out) == reg_len(validators) && (forall k :: {out[k]} 0 <= k && k < len(out) ==> out[k].Index == k && out[k].Activation == v_act(reg_val(validators, k)) && out[k].Exit == v_exit(n_val_write, reg_val(validators, k)))
+//@   ensures n_val_write == old(n_val_write)
+//@   loop 1
+//@     invariant viter_reg == validators && fnid(valIterNext) == n_viter && i == viter_pos && 0 <= i && i <= reg_len(validators) && len(indicesBounded) == reg_len(validators) && valCount == reg_len(validators) && n_val_write == old(n_val_write)
+//@     invariant forall k :: {indicesBounded[k]} 0 <= k && k < i ==> indicesBounded[k].Index == k && indicesBounded[k].Activation == v_act(reg_val(validators, k)) && indicesBounded[k].Exit == v_exit(n_val_write, reg_val(validators, k))
+
+// loadCurrentStake: the effective balance of every validator, and the total over those active in the current epoch
+// (at least one increment), with its integer square root.
+//@ defrec stake_sum(b BIdxs, reg RegI, e int, n int) int = ite(n <= 0, 0, wadd64c(stake_sum(b, reg, e, n - 1), ite(is_active(b[n - 1], e), v_eb(reg_val(reg, n - 1)), 0)))
+//@ func (epc *EpochsContext) loadCurrentStake(state, indicesBounded) err
+//@   property C08
+//@   opt rangeindex=on
+//@   requires epc != nil && state != nil && epc.CurrentEpoch != nil && epc.Spec != nil
+//@   assigns epc.EffectiveBalances, epc.TotalActiveStake, epc.TotalActiveStakeSqRoot
+//@   ensures balances: err == nil ==> !st_vals_err(state) && len(epc.EffectiveBalances) == len(indicesBounded) && (forall k :: {epc.EffectiveBalances[k]} 0 <= k && k < len(indicesBounded) ==> epc.EffectiveBalances[k] == v_eb(reg_val(st_vals(state), k)))
+//@   ensures total: err == nil ==> epc.TotalActiveStake == max(stake_sum(indicesBounded, st_vals(state), epc.CurrentEpoch.Epoch, len(indicesBounded)), epc.Spec.EFFECTIVE_BALANCE_INCREMENT)
+//@   ensures root: err == nil ==> epc.TotalActiveStakeSqRoot * epc.TotalActiveStakeSqRoot <= epc.TotalActiveStake && epc.TotalActiveStake < (epc.TotalActiveStakeSqRoot + 1) * (epc.TotalActiveStakeSqRoot + 1)
+//@   loop 1
+//@     invariant vals == st_vals(state) && len(epc.EffectiveBalances) == len(indicesBounded) && currentEpoch == epc.CurrentEpoch.Epoch
+//@     invariant epc.TotalActiveStake == stake_sum(indicesBounded, vals, currentEpoch, rangeindex + 1)
+//@     invariant forall k :: {epc.EffectiveBalances[k]} 0 <= k && k <= rangeindex ==> epc.EffectiveBalances[k] == v_eb(reg_val(vals, k))
+
+// ComputeShufflingEpoch: the shuffling of an epoch from the state's randao mixes (seed = get_seed(epoch, DOMAIN_BEACON_ATTESTER))
+// and the given activation / exit bounds; what NewShufflingEpoch does with them is its own contract (C07).
+//@ func ComputeShufflingEpoch(spec, state, indicesBounded, epoch) (r, err)
+//@   property C08
+//@   requires spec != nil && state != nil && 0 < spec.SLOTS_PER_EPOCH && spec.SLOTS_PER_EPOCH <= 1024 && 0 < spec.TARGET_COMMITTEE_SIZE && spec.MAX_COMMITTEES_PER_SLOT <= 1024 && len(indicesBounded) <= 1099511627776
+//@   requires spec.MIN_SEED_LOOKAHEAD + 1 <= spec.EPOCHS_PER_HISTORICAL_VECTOR && epoch + spec.EPOCHS_PER_HISTORICAL_VECTOR < 18446744073709551616
+//@   ensures err == nil ==> r != nil && r.Epoch == epoch && !st_mixes_err(state)
+//@   ensures active: err == nil ==> len(r.ActiveIndices) == act_count(indicesBounded, epoch, len(indicesBounded)) && (forall i :: {indicesBounded[i]} 0 <= i && i < len(indicesBounded) && is_active(indicesBounded[i], epoch) ==> r.ActiveIndices[act_count(indicesBounded, epoch, i)] == indicesBounded[i].Index)
+//@   ensures shuffled: err == nil ==> len(r.Shuffling) == len(r.ActiveIndices) && (len(r.Shuffling) > 1 && spec.SHUFFLE_ROUND_COUNT % 256 > 0 ==> (forall x :: {r.Shuffling[x]} 0 <= x && x < len(r.Shuffling) ==> r.Shuffling[x] == r.ActiveIndices[sh_fwd(seed_of(spec, st_mixes(state), epoch, DOMAIN_BEACON_ATTESTER), len(r.Shuffling), x, spec.SHUFFLE_ROUND_COUNT % 256)]))
+
+// RotateEpochs (one epoch further): the shufflings shift (previous := current, current := next), the next shuffling is
+// computed for current.epoch + 1 from the state's registry, and the stake figures are reloaded from the state for the
+// new current epoch. (That the shifted shufflings equal ones computed from scratch is a statement about histories: not claimed.)
+//@ sort SyncStateI = SyncCommitteeBeaconState
+//@ sort SCViewP = *SyncCommitteeView
+//@ func (s SyncCommitteeBeaconState) CurrentSyncCommittee() (r, err)
+//@   trusted
+//@   opt noalloc
+//@ func (s SyncCommitteeBeaconState) NextSyncCommittee() (r, err)
+//@   trusted
+//@   opt noalloc
+//@ func (epc *EpochsContext) hydrateSyncCommittee(view) (r, err)
+//@   trusted
+//@   ensures err == nil ==> r != nil
+//@ func (epc *EpochsContext) RotateEpochs(state) err
+//@   property C08
+//@   panics off
+//@   use reg_len_nonneg
+//@   requires epc != nil && state != nil && epc.Spec != nil && epc.CurrentEpoch != nil && epc.NextEpoch != nil
+//@   requires 0 < epc.Spec.SLOTS_PER_EPOCH && epc.Spec.SLOTS_PER_EPOCH <= 1024 && 0 < epc.Spec.TARGET_COMMITTEE_SIZE && epc.Spec.MAX_COMMITTEES_PER_SLOT <= 1024 && epc.Spec.MIN_SEED_LOOKAHEAD + 1 <= epc.Spec.EPOCHS_PER_HISTORICAL_VECTOR && epc.NextEpoch.Epoch + 1 + epc.Spec.EPOCHS_PER_HISTORICAL_VECTOR < 18446744073709551616 && (epc.NextEpoch.Epoch + 1) * epc.Spec.SLOTS_PER_EPOCH < 18446744073709551616 && len(epc.NextEpoch.ActiveIndices) <= 1099511627776
+//@   requires balances: epc.Spec.MAX_EFFECTIVE_BALANCE < 72057594037927936 && (forall v ValI :: {v_eb(v)} v_eb(v) < 72057594037927936)
+//@   assigns epc.PreviousEpoch, epc.CurrentEpoch, epc.NextEpoch, epc.Proposers, epc.EffectiveBalances, epc.TotalActiveStake, epc.TotalActiveStakeSqRoot, epc.CurrentSyncCommittee, epc.NextSyncCommittee, ghost(n_viter), ghost(viter_pos), ghost(viter_reg)
+//@   ensures shifted: err == nil ==> epc.PreviousEpoch == old(epc.CurrentEpoch) && epc.CurrentEpoch == old(epc.NextEpoch)
+//@   ensures next: err == nil ==> epc.NextEpoch != nil && epc.NextEpoch.Epoch == old(epc.NextEpoch.Epoch) + 1 && epc.Proposers != nil && epc.Proposers.Epoch == epc.CurrentEpoch.Epoch
+//@   ensures stake: err == nil ==> len(epc.EffectiveBalances) == reg_len(st_vals(state)) && (forall k :: {epc.EffectiveBalances[k]} 0 <= k && k < len(epc.EffectiveBalances) ==> epc.EffectiveBalances[k] == v_eb(reg_val(st_vals(state), k))) && epc.TotalActiveStake >= epc.Spec.EFFECTIVE_BALANCE_INCREMENT && epc.TotalActiveStakeSqRoot * epc.TotalActiveStakeSqRoot <= epc.TotalActiveStake && epc.TotalActiveStake < (epc.TotalActiveStakeSqRoot + 1) * (epc.TotalActiveStakeSqRoot + 1)
+
 // ---------------------------------------------------------------- proposer sampling (C07)
 // compute_shuffled_index: shuf_idx, defined in the swap-or-not section below (C06)
 //@ sort Root32 = Root
